@@ -50,7 +50,7 @@ def gen_case(rng, scale=1):
         n_singles=rng.choice([0, 1, 2]) if n_trios else rng.choice([1, 2, 3]),
         n_variants=[4, 7 + 2 * scale],
         depth=[3, 6],
-        read_len=[120, 380],
+        read_len=rng.choice([[120, 380], [120, 380], [50, 110]]),   # short reads: several phase sets per family
         het_prob=rng.choice([0.5, 0.7, 0.9]),
         recomb_prob=rng.choice([0.0, 0.6, 1.0]),
         kinds=rng.choice([["snv"], ["snv"], ["snv", "snv", "ins", "del"]]),
@@ -66,9 +66,19 @@ def gen_case(rng, scale=1):
         ped=bool(n_trios and rng.random() < 0.85),
         tag=rng.choice(["PS", "PS", "HP"]),
         recombrate=rng.choice([1.26, 1000, 1000000]),
+        # without genetic haplotyping the phase sets are the read-connected components only, so a family has several
+        # phase sets and singletons on one chromosome (a recombination then lies in a set that is not a prefix of the
+        # family's accessible positions)
+        no_genetic=bool(n_trios and rng.random() < 0.4),
         chrom_sel=rng.random() < 0.25,     # resolved to names below
         sample_sel=rng.random() < 0.15,
     )
+    if n_trios and rng.random() < 0.3:
+        # recombination focus: a recombining child, cheap recombination, several read-connected phase sets per family
+        params.update(n_variants=[9, 14 + 2 * scale], recomb_prob=1.0, het_prob=0.9, read_len=[90, 200], depth=[4, 7])
+        opts.update(ped=True, rec_list=True, no_genetic=True, recombrate=rng.choice([1000, 1000000]), distrust=False,
+                    include_hom=False)
+        params["gt_error_prob"] = 0.0
     case = {"kind": "pipeline", "gen_seed": rng.randrange(1 << 40), "params": params, "opts": opts}
     # selections need the names: resolve them deterministically from the scenario
     sc = scenario_from_case(case)
@@ -94,6 +104,8 @@ def cli_args(case, fa, bam, vcf, ped, out, files):
         a += ["--include-homozygous"]
     if o["ped"]:
         a += ["--ped", ped, "--recombrate", o["recombrate"]]
+        if o.get("no_genetic"):
+            a += ["--no-genetic-haplotyping"]
     for c in o.get("chromosomes") or []:
         a += ["--chromosome", c]
     for s in o.get("samples") or []:
